@@ -32,7 +32,7 @@ def plan(tier, seed):
     for i, dt in enumerate(types):
         for view in ("local", "remote", "pdo"):
             full = tier == "thorough" or (view == "local" and R.INTEGERS[dt] in (8, 16, 32))
-            shards.append({"dt": dt, "view": view, "full_ranges": full, "n_phys": 60 if tier == "quick" else 600,
+            shards.append({"dt": dt, "view": view, "full_ranges": full, "n_phys": 60 if tier == "quick" else 4000,
                            "sample_ranges": 40 if tier == "quick" else 0, "cs": seed * 1000 + i * 3})
     groups = [[] for _ in range(16)]
     for i, s in enumerate(shards):
